@@ -133,8 +133,12 @@ def build_ranked(name, driver_srcs, plain_srcs, nranks, variant="B", extra_plain
 
 
 def build_ptg(program, depmode, nranks, variant="B"):
-    """PTG program -> JDF + reference (gen/ptg/gen.py) -> real ptgpp -> rankified harness binary."""
-    name = "ptg_%s_%s" % (program, "ia" if depmode == "index-array" else "ht")
+    """PTG program -> JDF + reference (gen/ptg/gen.py) -> real ptgpp -> rankified harness binary.
+    depmode: 'dynamic-hash-table' | 'index-array', optionally suffixed '+dyn' for ptgpp --dynamic-termdet"""
+    dyn = depmode.endswith("+dyn")
+    if dyn:
+        depmode = depmode[:-4]
+    name = "ptg_%s_%s%s" % (program, "ia" if depmode == "index-array" else "ht", "_dyn" if dyn else "")
     hdir = os.path.join(P.WORK, "H", name)
     os.makedirs(hdir, exist_ok=True)
     gen = os.path.join(VERIF, "gen/ptg/gen.py")
@@ -144,8 +148,8 @@ def build_ptg(program, depmode, nranks, variant="B"):
         _run([sys.executable, gen, program, hdir])
     cfile = os.path.join(hdir, program + ".c")
     if _newer(cfile, [jdf, ptgpp]):
-        _run([ptgpp, "-E", "-i", jdf, "-o", os.path.join(hdir, program), "-f", program, "-M", depmode])
-    defines = ["-I" + hdir] + (["-DPTG_INDEX_ARRAY"] if depmode == "index-array" else [])
+        _run([ptgpp, "-E", "-i", jdf, "-o", os.path.join(hdir, program), "-f", program, "-M", depmode] + (["--dynamic-termdet"] if dyn else []))
+    defines = ["-I" + hdir] + (["-DPTG_INDEX_ARRAY"] if depmode == "index-array" else []) + (["-DPTG_DYNAMIC_TERMDET"] if dyn else [])
     return build_ranked(name, [os.path.join(VERIF, "harness/l2/ptg_driver.c"), cfile],
                         [os.path.join(VERIF, "harness/l2/ptg.c"), os.path.join(hdir, program + "_ref.c")],
                         nranks, variant=variant, defines=defines)
